@@ -96,6 +96,15 @@ void h_newchild(void) { ND(U32, base); ND(U64, big); c06defmemInstance* child; A
     OBL(MEMP(*child) == MEMP(inst), "new child: a SHARED memory is shared with the parent (same descriptor)");
 #endif
     CANARY("newchild"); }
+/* <module>FreeInstance releases what the instance owns - never an imported memory, which belongs to (and may still be used by) its owner */
+void h_free(void) { ND(U32, base); ND(U64, big); ASSUME(base >= 20 && base <= 23); host_setup(base, big);
+    HAVOC_INSTANCE(inst); c06defmemInstantiate(&inst, resolve);
+    c06defmemFreeInstance(&inst);
+#ifdef IMPORTED_MEMORY
+    OBL(g_hostmem.data == g_hostdata && g_hostmem.pages == 1 && g_hostmem.size == 65536u, "free instance: an imported memory is left to its owner (descriptor untouched)");
+    OBL(g_hostdata[8] == 'h', "free instance: the imported memory's contents are still there (not released: CBMC's deallocated-object check)");
+#endif
+    CANARY("free"); }
 void h_globals(void) { ND(U32, base); ND(U64, big); ASSUME(base >= 20 && base <= 23); host_setup(base, big);
     HAVOC_INSTANCE(inst); c06defmemInstantiate(&inst, resolve);
     OBL(inst.g3 == 5u && inst.g4 == 0x8000000000000001ull, "instantiate: integer globals hold their constant initialisers");
